@@ -751,6 +751,8 @@ func (e *Env) call(x *ECall) TV {
 		md, _, _ := mapComps(c, mt)
 		comp := c.comp(e.st, md, "(Array Ref (Array "+c.sortOf(mt.Key())+" Bool))")
 		return TV{T: sel(comp, m.T), SetElem: mt.Key()}
+	case "sameArray": // sameArray(s, t): the two slices share a backing array
+		return TV{T: "(= (sref " + arg(0).T + ") (sref " + arg(1).T + "))", Ty: B}
 	case "alive": // alive(ref): allocated
 		comp := c.comp(e.st, "alloc", "(Array Ref Bool)")
 		av := arg(0)
